@@ -26,8 +26,12 @@ and `Proofs/C07Vec.lean` (every `Vector` operation commutes with `toFn`).
 GMRES with modified Gram–Schmidt has an executable model too (`Model/C07Gmres.lean`: Arnoldi/MGS, incremental
 Givens rotations, back substitution; run by the driver in binary64, op `c07_gmres_mgs`) and is proved
 residual-optimal over the preconditioned Krylov space, end to end, over ordered fields with an exact square
-root (`gmres_mgs_optimal_krylov`); the
-Householder variants are covered at the algorithmic level only (abstract Arnoldi data + Givens sweep). -/
+root (`gmres_mgs_optimal_krylov`).
+Extension E11: restarted GMRES(MGS) (`gmres_restart_optimal`, monotonicity across restarts), FGMRES
+(`fgmres_optimal`: executable model of `_fgmres.py`, Householder--Arnoldi + Givens, any sequence of right
+preconditioners) and GMRES with Householder orthogonalisation (`gmres_householder_optimal_krylov`) have executable
+models (`Model/ExtC07Restart.lean`, `Model/ExtC07Hh.lean`, ops `ext_gmres_restart`, `ext_fgmres`, `ext_gmres_hh`)
+proved optimal end to end, also for the `Vector` instance the driver runs (`…_vec_…`). -/
 namespace PyamgV.Props.C07
 open PyamgV
 
@@ -115,6 +119,8 @@ restate fgmres_model_states := PyamgV.C07.fgmresHh_eq
 `x₀ + span{z_0 … z_m}` and minimises the 2-norm of the true residual `b − A x` over it, `z_j` the preconditioned
 directions -- for arbitrary maps `pre j` (right preconditioner changing from step to step) -/
 restate fgmres_optimal := PyamgV.C07.fgmres_hh_optimal
+/-- … hence `‖b − A x‖₂` does not increase from one inner iteration to the next -/
+restate fgmres_monotone := PyamgV.C07.fgmres_hh_monotone
 /-- the directions are `z_j = pre j (v_j)` with `v_0 … v_k` orthonormal and `r₀ = β v_0` -/
 restate fgmres_directions := PyamgV.C07.fgmres_hh_directions
 /-- the Householder--Arnoldi and the Givens invariant hold in every state `k < n` of the FGMRES model -/
@@ -140,6 +146,8 @@ restate gmres_householder_basis_spans_krylov := PyamgV.C07.gmres_hh_basis_span
 /-- C07 for GMRES(Householder) as stated: the iterate lies in `x₀ + K_{m+1}(MA, M r₀)` and minimises the 2-norm of
 the left-preconditioned residual over it -/
 restate gmres_householder_optimal_krylov := PyamgV.C07.gmres_hh_optimal_krylov
+/-- … hence `‖M(b − A x)‖₂` does not increase from one inner iteration to the next -/
+restate gmres_householder_monotone := PyamgV.C07.gmres_hh_monotone
 
 /-- Givens bookkeeping (`givensUpdate`, `backSub`) + orthonormal `v_l` + Arnoldi relation ⇒ optimal iterate; the
 list-level statement shared by the MGS and the Householder models -/
